@@ -143,9 +143,15 @@ def run(prog: Program, _no_c10: bool = False) -> Results:
                 if x in params:
                     roots.setdefault(x, []).append("param")
 
+            lb_param = next((p for p in f.params() if "let" in p), "let_bindings")
+
             def is_fallback(d):
                 if isinstance(d, ast.For):
                     return True
+                if isinstance(d, ast.Assign) and isinstance(d.value, ast.Call) and callee(d.value) == "next" and d.value.args \
+                        and isinstance(d.value.args[0], ast.GeneratorExp) and lb_param in norm(d.value.args[0].generators[0].iter) \
+                        and norm(d.value.args[0].elt) == norm(d.value.args[0].generators[0].target):
+                    return True  # next((outer for outer in let_bindings if outer.name == <reference>.name), None): the loop as an expression
                 return isinstance(d, ast.Assign) and isinstance(d.value, ast.Call) and callee(d.value) == "_find_binding" and len(d.value.args) > 1 and (
                     norm(d.value.args[1]) in ref_names or al.norm(d.value.args[1]).endswith(".value.name"))
 
@@ -187,7 +193,7 @@ def run(prog: Program, _no_c10: bool = False) -> Results:
                                         isinstance(d, ast.Assign) and norm(d.targets[0]) == norm(c.args[1]) and isinstance(d.value, ast.Attribute) and d.value.attr == "name"
                                         for d in ast.walk(g.node))):
                                 sib.append(n)
-                            if isinstance(c, ast.Attribute) and c.attr == "values" and n.kind in ("for", "stmt") and g is not f \
+                            if isinstance(c, ast.Attribute) and c.attr == "values" and n.kind in ("for", "stmt") \
                                     and next((p for p in f.params() if "let" in p), "let_bindings") in norm(g.node):
                                 sib.append(n)
                 lb = next((p for p in f.params() if "let" in p), "let_bindings")
